@@ -1062,10 +1062,13 @@ class Interp:
     def truth(self, t, fr=None):
         """True/False when the condition is decided (constants, a guard already in force,
         or the oracle), else None."""
-        if fr is not None and fr.guards and not tm.contains(t, lambda x: x.op == "alloc"):
+        if fr is not None and fr.guards and not tm.contains(t, lambda x: x.op == "alloc" and x.args[0] in ("list", "set")):
             for c, pol in fr.guards:
                 if c == t:
                     return pol
+                # `x is None` decided by a guard on `x is not None` (and vice versa)
+                if t.op == "cmp" and c.op == "cmp" and {t.args[0], c.args[0]} == {"is", "is not"} and t.args[1:] == c.args[1:]:
+                    return not pol
         return self._truth(t)
 
     def _truth(self, t):
@@ -1124,8 +1127,12 @@ class Interp:
                         return op == "is not"
             if op in ("is", "is not") and (b == NONE or a == NONE):
                 other = a if b == NONE else b
-                if other.op in ("alloc", "tuple", "list", "closure", "func", "class", "comp", "dict"):
+                if other.op in ("alloc", "tuple", "list", "closure", "func", "class", "comp", "dict", "binop", "unop"):
                     return op == "is not"
+                if other.op == "call":
+                    nm = tm.callee_name(other) or ""
+                    if (nm.startswith("numpy.") and nm not in ("numpy.ndarray.__new__",)) or nm in (".astype", ".copy", ".nonzero", ".tolist", ".reshape", ".ravel", ".sum", ".cumsum", ".argsort", ".clip"):
+                        return op == "is not"  # NumPy constructors / array methods never return None
         if t.op == "call" and tm.callee_name(t) == "builtins.isinstance" and len(t.args[1]) == 2:
             x, k = t.args[1]
             if x.op == "tuple" and tm.dotted(k) == "builtins.tuple":
